@@ -321,6 +321,95 @@ def c07b(payload, schedules):
 
 HANDLERS.update({'c03': c03, 'c07t': c07t, 'c07b': c07b})
 
+# ---------------------------------------------------------------------------------------------------------------
+# C02 / C12 / C16: dump -> load round trips
+# ---------------------------------------------------------------------------------------------------------------
+def _dump_opts(o):
+    o = dict(o)
+    if o.get('version') is not None: o['version'] = tuple(o['version'])
+    return o
+def _classes(be):
+    import yaml
+    return {'py': (yaml.SafeDumper, yaml.SafeLoader), 'c': (getattr(yaml, 'CSafeDumper', None), getattr(yaml, 'CSafeLoader', None))}[be]
+
+def rt(enc, opts, dumper_be, loader_be):
+    """safe_dump then safe_load of one value under one option set and one (dumper, loader) back-end pair"""
+    import yaml
+    from tools.values import decode, show
+    D = _classes(dumper_be)[0]; L = _classes(loader_be)[1]
+    if D is None or L is None: return dict(bad=[], outcome='no_c')
+    v = decode(enc); o = _dump_opts(opts); bad = []
+    try:
+        text = yaml.dump(v, Dumper=D, **o)
+    except Exception as e:
+        return dict(bad=[dict(kind='dump_raises', what='safe_dump raised %s: %s' % (type(e).__name__, str(e)[:80]), exc=type(e).__name__, dumper=dumper_be)], outcome='dump_raises')
+    if (o.get('encoding') is None) != isinstance(text, str):
+        bad.append(dict(kind='result_type', what='dump returned %s with encoding=%r' % (type(text).__name__, o.get('encoding')), dumper=dumper_be))
+    try:
+        back = yaml.load(text, Loader=L)
+    except Exception as e:
+        return dict(bad=bad + [dict(kind='dump_unreadable', what='safe_load rejects what safe_dump wrote (%s: %s)' % (type(e).__name__, str(e)[:100].replace('\n', ' ')), exc=type(e).__name__, text=text if isinstance(text, str) else text.decode(o['encoding'], 'replace'), dumper=dumper_be, loader=loader_be)], outcome='unreadable')
+    canon = bool(o.get('sort_keys', True))
+    a, b = show(v, canon), show(back, canon)
+    if a != b:
+        k = 0
+        while k < min(len(a), len(b)) and a[k] == b[k]: k += 1
+        bad.append(dict(kind='roundtrip_differs', what='value differs after dump/load at canonical offset %d: %r vs %r' % (k, a[max(0, k - 30):k + 40], b[max(0, k - 30):k + 40]),
+                        text=(text if isinstance(text, str) else text.decode(o['encoding'], 'replace'))[:6000], dumper=dumper_be, loader=loader_be))
+    return dict(bad=bad, outcome='ok' if not bad else 'differs')
+
+# ---------------------------------------------------------------------------------------------------------------
+# C05: emit -> parse
+# ---------------------------------------------------------------------------------------------------------------
+def _ev_equiv(o, p):
+    import yaml
+    if type(o) is not type(p): return 'event types %s vs %s' % (type(o).__name__, type(p).__name__)
+    if isinstance(o, yaml.DocumentStartEvent):
+        if (o.version or None) != (p.version or None): return 'version %r vs %r' % (o.version, p.version)
+        if (o.tags or {}) != (p.tags or {}): return '%%TAG directives %r vs %r' % (o.tags, p.tags)
+    if isinstance(o, (yaml.AliasEvent, yaml.ScalarEvent, yaml.SequenceStartEvent, yaml.MappingStartEvent)):
+        if o.anchor != p.anchor: return 'anchor %r vs %r' % (o.anchor, p.anchor)
+    if isinstance(o, yaml.ScalarEvent):
+        if o.value != p.value: return 'scalar %r vs %r' % (o.value, p.value)
+        if o.tag != p.tag and not (p.tag is None and (o.implicit[0] or o.implicit[1])) and not (o.tag is None and p.tag == '!'):
+            return 'scalar tag %r vs %r (implicit %r)' % (o.tag, p.tag, o.implicit)
+        # an elided tag must be licensed by the flag for the style that was written
+        if o.tag is not None and p.tag is None:
+            plain = p.implicit[0]
+            if (plain and not o.implicit[0]) or (not plain and not o.implicit[1]): return 'tag %r elided although not implicit for the written style' % (o.tag,)
+    if isinstance(o, (yaml.SequenceStartEvent, yaml.MappingStartEvent)):
+        if o.tag != p.tag and not (p.tag is None and o.implicit): return 'collection tag %r vs %r' % (o.tag, p.tag)
+    return None
+
+def c05(line, be, wf=True):
+    import yaml
+    from tools.events import dec_case, to_yaml_events
+    evs, o = dec_case(line)
+    yevs = to_yaml_events(evs)
+    D = yaml.Dumper if be == 'py' else getattr(yaml, 'CDumper', None)
+    L = yaml.Loader if be == 'py' else getattr(yaml, 'CLoader', None)
+    if D is None: return dict(bad=[], outcome='no_c')
+    try:
+        text = yaml.emit(yevs, Dumper=D, **o)
+    except yaml.emitter.EmitterError: return dict(bad=[], outcome='EmitterError')
+    except yaml.YAMLError as e: return dict(bad=[], outcome=type(e).__name__)
+    except Exception as e:
+        return dict(bad=[dict(kind='emit_non_yaml_exception', what='emit raised %s: %s' % (type(e).__name__, str(e)[:80]), exc=type(e).__name__, backend=be)], outcome='crash')
+    if not wf: return dict(bad=[], outcome='accepted_illformed_or_unknown')
+    try:
+        back = list(yaml.parse(text, Loader=L))
+    except Exception as e:
+        return dict(bad=[dict(kind='emit_unparsable', what='the emitted text does not parse (%s: %s)' % (type(e).__name__, str(e)[:100].replace('\n', ' ')), exc=type(e).__name__, text=text[:6000], backend=be)], outcome='unparsable')
+    bad = []
+    if len(back) != len(yevs): bad.append(dict(kind='emit_parse_differs', what='%d events emitted, %d parsed back' % (len(yevs), len(back)), text=text[:6000], backend=be))
+    else:
+        for k, (a, b2) in enumerate(zip(yevs, back)):
+            d = _ev_equiv(a, b2)
+            if d: bad.append(dict(kind='emit_parse_differs', what='event %d: %s' % (k, d), text=text[:6000], backend=be)); break
+    return dict(bad=bad, outcome='ok' if not bad else 'differs')
+
+HANDLERS.update({'rt': rt, 'c05': c05})
+
 def handle(case):
     return HANDLERS[case[0]](*case[1:])
 
